@@ -58,7 +58,7 @@ def fixed_cases():
     # removals while the topic stays loaded (sessions 1,3 = users 1,2 on 'me' only; 2,4 = their topic sessions)
     mk("f_p2p_removed", 2, {1: 1, 2: 1, 3: 2, 4: 2},
        ["att 1 me 0", "att 3 me 0", "att 2 p2 0", "att 4 p1 0", "pub 4 p1", "pub 2 p2", "note 2 p2 read 1", "unsub 2 p2",
-        "note 4 p1 kp 0", "note 4 p1 read 2", "note 4 p1 recv 2", "pub 4 p1", "delmsg 4 p1 0", "want 4 p1 23", "want 4 p1 31",
+        "note 4 p1 kp 0", "note 4 p1 read 2", "note 4 p1 recv 2", "pub 4 p1", "note 2 p2 recv 3", "note 1 p2 recv 3", "delmsg 4 p1 0", "want 4 p1 23", "want 4 p1 31",
         "det 4 p1", "att 4 p1 0", "note 4 p1 kp 0", "att 2 p2 0", "note 4 p1 kp 0", "unloadall"], "rm")
     mk("f_grp_removed", 3, {1: 1, 2: 1, 3: 2, 4: 2, 5: 3, 6: 3},
        ["att 1 me 0", "att 3 me 0", "att 5 me 0", "new 2 1", "given 2 g1 2 47", "given 2 g1 3 47", "att 4 g1 0", "att 6 g1 0",
@@ -140,22 +140,33 @@ def gen_rm(rng, sid):
         ref = someref(u)
         if not ref:
             return
+        gone = None      # (user, the user's name for the topic) just removed or banned
         if ref[0] == "p":
             v = int(ref[1:])
             if rng.random() < 0.75:
                 ops.append(("unsub", [rng.choice([2 * u, 2 * u, 2 * u - 1]), ref]))
                 unsubbed.add(key(u, ref))
+                gone = (u, ref)
             elif key(u, ref) not in unsubbed:
                 ops.append(("given", [2 * u, ref, v, rng.choice([30, 22, 0])]))      # ban / ban+mute the partner
+                gone = (v, "p%d" % u)
         else:
             r = rng.random()
             v = rng.choice(users)
             if r < 0.4 and u != owner:
                 ops.append(("unsub", [2 * u, "g1"]))
+                gone = (u, "g1")
             elif r < 0.75 and v != owner:
                 ops.append(("evict", [2 * owner, "g1", v]))
+                gone = (v, "g1")
             elif v != owner:
                 ops.append(("given", [2 * owner, "g1", v, rng.choice([46, 14, 0, 6])]))
+                gone = (v, "g1")
+        if gone and rng.random() < 0.5:
+            # the removed user's (now detached) session acknowledges receipt: routed by the hub to the loaded topic
+            w, gref = gone
+            top = pubs.get(key(w, gref), 0)
+            ops.append(("note", [rng.choice([2 * w, 2 * w - 1]), gref, "recv", rng.choice([top, top, max(1, top - 1), top + 1])]))
     nrem = 0
     for i in range(rng.randint(10, 24)):
         r = rng.random()
@@ -556,7 +567,7 @@ def run(ctx):
         for prof, share in (("fg", 0.7), ("bkg", 0.15), ("race", 0.15)):
             for i in range(int(total * share)):
                 scns.append(gen_scn(ctx.rng, "%s%d" % (prof, i), prof))
-        for i in range(240 if quick else 4000):
+        for i in range(200 if quick else 4000):
             scns.append(gen_rm(ctx.rng, "rm%d" % i))
     t0 = time.time()
     rc, impl, log = run_impl(ctx, scns)
